@@ -128,6 +128,35 @@ func hostileRun(prop string, stmts []ast.Node, doOut bool, family string, extra 
 	return res
 }
 
+// hostileRaw runs an accepted source text as it is (no reference verdict): only aborts are looked for.
+func hostileRaw(src string, doOut bool, why string) core.Result {
+	var res core.Result
+	res.Hash = core.HashString(src)
+	in := map[string]any{"text": src, "mode": map[bool]string{true: "repl", false: "script"}[doOut], "note": "accepted although outside the documented grammar: " + why}
+	calcrun.SetStdin("line one\n")
+	ses := calcrun.NewSession()
+	ses.StepLimit = 200000
+	for _, o := range ses.Exec(src, doOut) {
+		if o.Panic != nil || o.Hang != "" {
+			d := o.Hang
+			if o.Panic != nil {
+				d = "interpreter panicked: " + o.Panic.Msg + " (at " + o.Panic.Site + ")"
+			}
+			res.Verdict = core.Violated
+			res.Viol = &core.Violation{Monitor: "no-abort", Detail: fmt.Sprintf("%q: %s", trunc(src, 200), d), Input: in}
+			return res
+		}
+		if o.StepLimit {
+			return core.Result{Verdict: core.Inconclusive, Reason: "diverged (VM step limit, no reference verdict)"}
+		}
+	}
+	res.Add("statements_executed", 1)
+	res.Verdict = core.Held
+	res.Nontrivial = true
+	res.Sample = in
+	return res
+}
+
 // hostile values for the operator x position matrix
 var hostileVals = []string{
 	"nosuch", "write", "0", "1", "-1", "63", "64", "9223372036854775807", "-9223372036854775807 - 1", "0.0", "-0.5", "1.5", "100000000000000000000.0",
@@ -188,7 +217,13 @@ func init() {
 				if perr != nil || pan != nil || hang != "" || len(nodes) != 1 {
 					return core.Result{Verdict: core.Dropped, Reason: "matrix text not accepted by the parser"}
 				}
-				return hostileRun("C05", []ast.Node{calcrun.FromNode(nodes[0])}, idx%2 == 0, "matrix", "")
+				n0 := calcrun.FromNode(nodes[0])
+				if d := ast.Denotable(n0); d != "" {
+					// the parser accepted a text the harness's syntax tree cannot even express (it is outside the
+					// documented grammar): the accepted text itself must still not abort the interpreter
+					return hostileRaw(src, idx%2 == 0, d)
+				}
+				return hostileRun("C05", []ast.Node{n0}, idx%2 == 0, "matrix", "")
 			}},
 			{Name: "random", Count: countFn(50000, 2000000), Run: func(ctx *core.Ctx, idx int) core.Result {
 				r := core.CaseRng(ctx.Seed, "C05/random", idx)
